@@ -791,6 +791,8 @@ def judge(plan, result, refs):
     violations = []
     nontrivial_run = False
     faulted_before = {}
+    failed_set = set()      # objects with a setter / constructor that raised: the plan-level model of
+    #                         their current configuration no longer holds, only ref_replay is used
     opk = stats['op_kinds'] = {}
     for t in plan['tasks']:
         for o in t['ops']:
@@ -815,6 +817,9 @@ def judge(plan, result, refs):
             continue
         if ob.get('opfail'):
             stats['opfail'] += 1
+            fop = plan['tasks'][ob['task']]['ops'][ob['idx']]
+            if fop['op'] in ('set', 'new') and 'o' in fop:
+                failed_set.add(fop['o'])
         if ob['op'] not in ('call', 'ddiff') or 'rec' not in ob:
             continue
         tid, idx = ob['task'], ob['idx']
@@ -826,6 +831,10 @@ def judge(plan, result, refs):
         replay_plan, norm_plan = miniplans(ops, idx)
         if replay_plan is None:
             continue
+        if norm_plan is not None and failed_set:
+            need_o, _ = _closure(ops, idx, [ops[idx]['o']]) if ops[idx]['op'] == 'call' else ([], [])
+            if any(o in failed_set for o in (need_o or [])):
+                norm_plan = None
         stats['compared'] += 1
         if faulted_before.get(tid):
             stats['post_fault_compared'] += 1
